@@ -160,9 +160,9 @@ def numShape : List Char → Option Bool
   | [] => none
   | c :: cs => if c = '-' then unsignedShape cs else unsignedShape (c :: cs)
 
-def natOfDigits : Nat → List Char → Nat
-  | acc, [] => acc
-  | acc, c :: cs => natOfDigits (acc * 10 + (c.toNat - 48)) cs
+def natOfDigits : List Char → Nat → Nat
+  | [], acc => acc
+  | c :: cs, acc => natOfDigits cs (acc * 10 + (c.toNat - 48))
 
 def fltTok (tok : List Char) : Option Json := (F.fparse tok).map Json.flt
 
@@ -176,13 +176,13 @@ def parseNumTok (tok : List Char) : Option Json :=
     | [] => none
     | c :: ds =>
       if c = '-' then
-        let n := natOfDigits 0 ds
+        let n := natOfDigits ds 0
         -- "-0" is the float -0.0; below i64::MIN the token is a float
         if n = 0 then fltTok F tok
         else if n ≤ 9223372036854775808 then some (.int (Int.negSucc (n - 1)))
         else fltTok F tok
       else
-        let n := natOfDigits 0 (c :: ds)
+        let n := natOfDigits (c :: ds) 0
         if n < 18446744073709551616 then some (.int (Int.ofNat n)) else fltTok F tok
 
 def hexVal (c : Char) : Option Nat :=
@@ -379,8 +379,10 @@ def parseD (d : Nat) (s : List Char) : Option Json := (parseRawD F d s).map Json
 /-- `serde_json::from_str::<Value>` -/
 def parse (s : List Char) : Option Json := parseD F depthLimit s
 
-/-- the concrete text layer -/
-def jsonLayer : TextLayer (List Char) := { print := print F, parse := parse F }
+/-- the concrete text layer in the sense of Model.Serde: `parse` of a `TextLayer` is
+    the raw tree the streaming deserializer walks through (`fromText` decodes it,
+    `fromTextViaValue` normalises it first) -/
+def jsonLayer : TextLayer (List Char) := { print := print F, parse := parseRaw F }
 
 /-- `serde_json::from_str::<varlink::Request>` = the concrete request decoder
     (`decode` walks the raw tree: a duplicate known member is an error there) -/
@@ -405,12 +407,11 @@ def intInRange (i : Int) : Bool :=
   decide (-9223372036854775808 ≤ i) && decide (i < 18446744073709551616)
 
 mutual
-  /-- `fits d j`: nesting stays within `remaining_depth = d`, integers are i64/u64,
-      every object has strictly ascending keys (a `Value`) -/
+  /-- `fits d j`: nesting stays within `remaining_depth = d`, integers are i64/u64 -/
   def fits : Nat → Json → Bool
     | _, .int i => intInRange i
     | d, .arr l => decide (1 < d) && fitsList (d - 1) l
-    | d, .obj l => decide (1 < d) && strictSorted (l.map (·.1)) && fitsObj (d - 1) l
+    | d, .obj l => decide (1 < d) && fitsObj (d - 1) l
     | _, _ => true
   def fitsList : Nat → List Json → Bool
     | _, [] => true
@@ -420,8 +421,15 @@ mutual
     | d, (_, v) :: xs => fits d v && fitsObj d xs
 end
 
-/-- a `serde_json::Value` that `from_str` can rebuild: depth below the recursion limit -/
-def Printable (j : Json) : Prop := fits depthLimit j = true
+/-- a raw tree (members in any order) whose text the parser accepts: nesting below
+    the recursion limit (at most 127 containers deep), integers within [-2^63, 2^64) -/
+def RawPrintable (j : Json) : Prop := fits depthLimit j = true
+
+instance (j : Json) : Decidable (RawPrintable j) := by unfold RawPrintable; infer_instance
+
+/-- a `serde_json::Value` that `from_str::<Value>` rebuilds: `RawPrintable`, and
+    every object has strictly ascending keys (`Json.isNormal`, the `BTreeMap`) -/
+def Printable (j : Json) : Prop := fits depthLimit j = true ∧ j.isNormal = true
 
 instance (j : Json) : Decidable (Printable j) := by unfold Printable; infer_instance
 
@@ -445,5 +453,7 @@ mutual
 end
 
 def FloatLayer.Faithful (j : Json) : Prop := faithful F j = true
+
+instance (j : Json) : Decidable (FloatLayer.Faithful F j) := by unfold FloatLayer.Faithful; infer_instance
 
 end VV.JsonText
